@@ -5,147 +5,151 @@ every crash point.
 -/
 namespace OpenHTF.AtomicFile
 
-/-- appending chunks to the temporary file never touches the destination and accumulates in order -/
-theorem appends (cs : List Bytes) (fs : Fs) (t : Bytes) (h : fs.temp = some t) :
-    applyAll fs (cs.map .append) = { dest := fs.dest, temp := some (t ++ cs.flatten) } := by
-  induction cs generalizing fs t with
-  | nil => simp [applyAll, ← h]
-  | cons c cs ih =>
-    simp only [List.map_cons, applyAll, List.foldl_cons]
-    have := ih (apply fs (.append c)) (t ++ c) (by simp [apply, h])
-    simp only [applyAll] at this
-    rw [this]
-    simp [apply, List.append_assoc]
-
 theorem applyAll_append (fs : Fs) (a b : List FsOp) : applyAll fs (a ++ b) = applyAll (applyAll fs a) b := by
   simp [applyAll, List.foldl_append]
 
-/-- the destination is only ever changed by `rename`, and a program prefix without `rename` leaves it alone -/
-theorem dest_unchanged (ops : List FsOp) (fs : Fs) (h : FsOp.rename ∉ ops) : (applyAll fs ops).dest = fs.dest := by
+theorem applyAll_cons (fs : Fs) (a : FsOp) (b : List FsOp) : applyAll fs (a :: b) = applyAll (apply fs a) b := rfl
+
+/-- appending chunks through the open handle on the temporary file only fills the buffer, in order -/
+theorem appends (cs : List Bytes) (fs : Fs) (h : fs.handle = .onTemp) :
+    applyAll fs (cs.map .append) = { fs with buf := fs.buf ++ cs.flatten } := by
+  induction cs generalizing fs with
+  | nil => simp [applyAll]
+  | cons c cs ih =>
+    simp only [List.map_cons, applyAll_cons]
+    have h' : (apply fs (.append c)).handle = .onTemp := by simp [apply, h]
+    rw [ih _ h']
+    simp [apply, h, List.append_assoc]
+
+/-- the state after creating the temporary file and writing the chunks -/
+theorem written (old : Option Bytes) (cs : List Bytes) :
+    applyAll { dest := old } ([FsOp.createTemp] ++ cs.map FsOp.append) =
+      { dest := old, temp := some [], buf := cs.flatten, handle := .onTemp } := by
+  rw [applyAll_append]
+  have : applyAll { dest := old } [FsOp.createTemp] = { dest := old, temp := some [], buf := [], handle := .onTemp } := rfl
+  rw [this, appends cs _ rfl]
+  simp
+
+/-- as long as nothing was renamed the open handle is not on the destination, and the destination is not touched -/
+theorem dest_unchanged (ops : List FsOp) (fs : Fs) (h : FsOp.rename ∉ ops) (hh : fs.handle ≠ .onDest) :
+    (applyAll fs ops).dest = fs.dest ∧ (applyAll fs ops).handle ≠ .onDest := by
   induction ops generalizing fs with
-  | nil => rfl
+  | nil => exact ⟨rfl, hh⟩
   | cons o os ih =>
-    simp only [applyAll, List.foldl_cons]
+    rw [applyAll_cons]
     have ho : o ≠ .rename := fun e => h (e ▸ List.mem_cons_self)
-    have := ih (apply fs o) (fun hm => h (List.mem_cons_of_mem _ hm))
-    simp only [applyAll] at this
-    rw [this]
-    cases o <;> simp_all [apply]
+    have step : (apply fs o).dest = fs.dest ∧ (apply fs o).handle ≠ .onDest := by
+      cases o <;> simp_all [apply, flushBuf] <;> (try split) <;> simp_all
+      all_goals (cases hc : fs.handle <;> simp_all)
+    have := ih (apply fs o) (fun hm => h (List.mem_cons_of_mem _ hm)) step.2
+    exact ⟨this.1.trans step.1, this.2⟩
 
 theorem take_no_rename (pre : List FsOp) (k : Nat) (h : FsOp.rename ∉ pre) : FsOp.rename ∉ pre.take k :=
   fun hm => h (List.mem_of_mem_take hm)
 
-theorem maps_no_rename (cs : List Bytes) : FsOp.rename ∉ ([FsOp.createTemp] ++ cs.map FsOp.append) := by
+theorem no_rename_in (cs : List Bytes) (tail : List FsOp) (ht : FsOp.rename ∉ tail) :
+    FsOp.rename ∉ ([FsOp.createTemp] ++ cs.map FsOp.append ++ tail) := by
   intro h
   simp only [List.mem_append, List.mem_singleton, List.mem_map] at h
-  rcases h with h | ⟨c, _, h⟩ <;> simp at h
+  rcases h with (h | ⟨c, _, h⟩) | h
+  · simp at h
+  · simp at h
+  · exact ht h
+
+/-- a program without any rename leaves the destination as it was, wherever it is cut -/
+theorem unpublished (old : Option Bytes) (ops : List FsOp) (j : Nat) (h : FsOp.rename ∉ ops) :
+    (applyAll { dest := old } (crashAfter j ops)).dest = old :=
+  (dest_unchanged _ { dest := old } (take_no_rename ops j h) (by simp)).1
+
+/-- state once the temporary file has been written and closed (with or without an explicit flush first) -/
+theorem closed_full (old : Option Bytes) (cs : List Bytes) (fl : List FsOp) (hfl : fl = [] ∨ fl = [.flush]) :
+    applyAll { dest := old } ([FsOp.createTemp] ++ cs.map FsOp.append ++ (fl ++ [.close])) =
+      { dest := old, temp := some (full cs), buf := [], handle := .closed } := by
+  rw [applyAll_append, written]
+  rcases hfl with rfl | rfl <;> simp [applyAll, apply, flushBuf, full]
 
 /-- the successful run writes exactly the serialization -/
-theorem c17_success_exact (old : Option Bytes) (chunks : List Bytes) :
+theorem c17_success_exact (old : Option Bytes) (chunks : List Bytes) (fsync : Bool) :
     (applyAll { dest := old } (outputToFile chunks .none)).dest = some (full chunks) ∧
-    (applyAll { dest := old } (atomicWrite chunks .none)).dest = some (full chunks) := by
-  have h1 : applyAll { dest := old } ([FsOp.createTemp] ++ chunks.map FsOp.append) = { dest := old, temp := some (full chunks) } := by
-    rw [applyAll_append]
-    have := appends chunks (applyAll { dest := old } [.createTemp]) [] (by simp [applyAll, apply])
-    rw [this]; simp [applyAll, apply, full]
+    (applyAll { dest := old } (atomicWrite chunks fsync .none)).dest = some (full chunks) := by
   constructor
   · simp only [outputToFile]
-    rw [applyAll_append, h1]; simp [applyAll, apply]
+    have hc := closed_full old chunks [] (Or.inl rfl)
+    simp only [List.nil_append] at hc
+    rw [applyAll_append, hc]; simp [applyAll, apply]
   · simp only [atomicWrite]
-    rw [applyAll_append, h1]; simp [applyAll, apply]
+    rw [applyAll_append, closed_full old chunks _ (by cases fsync <;> simp)]; simp [applyAll, apply]
 
-/-- Atomicity of `OutputToFile` with a filename pattern: whatever the fault (serializer after k chunks,
-    k-th write, close) and wherever the process is killed (after any number j of file-system
-    operations), the destination either still holds its previous state (absent or the old complete
-    content) or holds the complete new serialization — never a truncated or partial record. -/
-theorem c17_atomic_output_to_file (old : Option Bytes) (chunks : List Bytes) (fault : Fault) (j : Nat) :
-    let d := (applyAll { dest := old } (crashAfter j (outputToFile chunks fault))).dest
-    d = old ∨ d = some (full chunks) := by
+/-- publishing core: `pre ++ post` where `pre` (no rename) ends with the temporary file complete and closed and `post`
+    starts with the rename: cut anywhere, the destination is old or complete -/
+theorem publish (old : Option Bytes) (cs : List Bytes) (pre post : List FsOp) (j : Nat)
+    (hpre : FsOp.rename ∉ pre)
+    (hst : applyAll { dest := old } pre = { dest := old, temp := some (full cs), buf := [], handle := .closed })
+    (hpost : post = [.rename] ∨ post = [.rename, .removeTemp]) :
+    let d := (applyAll { dest := old } (crashAfter j (pre ++ post))).dest
+    d = old ∨ d = some (full cs) := by
   intro d
-  cases fault with
-  | serializer k =>
-    left
-    apply dest_unchanged
-    apply take_no_rename
-    intro h
-    simp only [outputToFile, List.mem_append, List.mem_singleton, List.mem_map] at h
-    rcases h with (h | ⟨c, _, h⟩) | h <;> simp at h
-  | write k =>
-    left
-    apply dest_unchanged
-    apply take_no_rename
-    intro h
-    simp only [outputToFile, List.mem_append, List.mem_singleton, List.mem_map] at h
-    rcases h with (h | ⟨c, _, h⟩) | h <;> simp at h
-  | close =>
-    left
-    apply dest_unchanged
-    apply take_no_rename
-    exact maps_no_rename chunks
-  | none =>
-    -- the program is  pre ++ [rename]  with no rename in pre
-    simp only [d, crashAfter, outputToFile]
-    by_cases hj : j ≤ ([FsOp.createTemp] ++ chunks.map FsOp.append).length
-    · left
-      rw [List.take_append_of_le_length hj]
-      exact dest_unchanged _ _ (take_no_rename _ _ (maps_no_rename chunks))
-    · right
-      have hlen : ([FsOp.createTemp] ++ chunks.map FsOp.append ++ [FsOp.rename]).length ≤ j := by
-        simp only [List.length_append, List.length_cons, List.length_nil] at hj ⊢; omega
-      rw [List.take_of_length_le hlen]
-      exact (c17_success_exact old chunks).1
-
-/-- the same for `atomic_write` -/
-theorem c17_atomic_atomic_write (old : Option Bytes) (chunks : List Bytes) (fault : Fault) (j : Nat) :
-    let d := (applyAll { dest := old } (crashAfter j (atomicWrite chunks fault))).dest
-    d = old ∨ d = some (full chunks) := by
-  intro d
-  cases fault with
-  | serializer k =>
-    left
-    apply dest_unchanged
-    apply take_no_rename
-    intro h
-    simp only [atomicWrite, List.mem_append, List.mem_singleton, List.mem_map] at h
-    rcases h with (h | ⟨c, _, h⟩) | h <;> simp at h
-  | write k =>
-    left
-    apply dest_unchanged
-    apply take_no_rename
-    intro h
-    simp only [atomicWrite, List.mem_append, List.mem_singleton, List.mem_map] at h
-    rcases h with (h | ⟨c, _, h⟩) | h <;> simp at h
-  | close =>
-    left
-    apply dest_unchanged
-    apply take_no_rename
-    intro h
-    simp only [atomicWrite, List.mem_append, List.mem_singleton, List.mem_map] at h
-    rcases h with (h | ⟨c, _, h⟩) | h <;> simp at h
-  | none =>
-    simp only [d, crashAfter, atomicWrite]
-    by_cases hj : j ≤ ([FsOp.createTemp] ++ chunks.map FsOp.append).length
-    · left
-      rw [List.take_append_of_le_length hj]
-      exact dest_unchanged _ _ (take_no_rename _ _ (maps_no_rename chunks))
-    · right
-      -- at least the rename happened; the trailing remove does not touch the destination
-      have h1 : applyAll { dest := old } ([FsOp.createTemp] ++ chunks.map FsOp.append) = { dest := old, temp := some (full chunks) } := by
-        rw [applyAll_append]
-        have := appends chunks (applyAll { dest := old } [.createTemp]) [] (by simp [applyAll, apply])
-        rw [this]; simp [applyAll, apply, full]
-      have hj' : ([FsOp.createTemp] ++ chunks.map FsOp.append).length < j := by omega
-      rw [List.take_append, List.take_of_length_le (by omega), applyAll_append, h1]
-      generalize hk : j - ([FsOp.createTemp] ++ chunks.map FsOp.append).length = k
-      have hk1 : 1 ≤ k := by omega
-      cases k with
+  by_cases hj : j ≤ pre.length
+  · left
+    simp only [d, crashAfter, List.take_append_of_le_length hj]
+    exact (dest_unchanged _ { dest := old } (take_no_rename pre j hpre) (by simp)).1
+  · right
+    have hj' : pre.length < j := by omega
+    simp only [d, crashAfter]
+    rw [List.take_append, List.take_of_length_le (by omega), applyAll_append, hst]
+    generalize hk : j - pre.length = k
+    have hk1 : 1 ≤ k := by omega
+    rcases hpost with rfl | rfl
+    · cases k with
+      | zero => omega
+      | succ k => simp [applyAll, apply]
+    · cases k with
       | zero => omega
       | succ k =>
         cases k with
         | zero => simp [applyAll, apply]
         | succ k => simp [applyAll, apply]
 
+/-- Atomicity of `OutputToFile` with a filename pattern: whatever the fault (serializer after k chunks,
+    k-th write, close) and wherever the process is killed (after any number j of file-system
+    operations, buffered data being lost), the destination either still holds its previous state (absent or the
+    old complete content) or holds the complete new serialization — never a truncated or partial record. -/
+theorem c17_atomic_output_to_file (old : Option Bytes) (chunks : List Bytes) (fault : Fault) (j : Nat) :
+    let d := (applyAll { dest := old } (crashAfter j (outputToFile chunks fault))).dest
+    d = old ∨ d = some (full chunks) := by
+  intro d
+  cases fault with
+  | serializer k => left; exact unpublished old _ j (no_rename_in _ _ (by simp))
+  | write k => left; exact unpublished old _ j (no_rename_in _ _ (by simp))
+  | close => left; exact unpublished old _ j (no_rename_in _ _ (by simp))
+  | none =>
+    have hc := closed_full old chunks [] (Or.inl rfl)
+    simp only [List.nil_append] at hc
+    exact publish old chunks ([FsOp.createTemp] ++ chunks.map FsOp.append ++ [.close]) [.rename] j
+      (no_rename_in _ _ (by simp)) hc (Or.inl rfl)
+
+/-- the same for `atomic_write`, with and without filesync -/
+theorem c17_atomic_atomic_write (old : Option Bytes) (chunks : List Bytes) (fsync : Bool) (fault : Fault) (j : Nat) :
+    let d := (applyAll { dest := old } (crashAfter j (atomicWrite chunks fsync fault))).dest
+    d = old ∨ d = some (full chunks) := by
+  intro d
+  cases fault with
+  | serializer k => left; exact unpublished old _ j (no_rename_in _ _ (by simp))
+  | write k => left; exact unpublished old _ j (no_rename_in _ _ (by simp))
+  | close => left; exact unpublished old _ j (no_rename_in _ _ (by simp))
+  | none =>
+    exact publish old chunks _ [.rename, .removeTemp] j
+      (no_rename_in _ _ (by cases fsync <;> simp)) (closed_full old chunks _ (by cases fsync <;> simp)) (Or.inr rfl)
+
+/-- publishing BEFORE closing is not atomic: killed right after the rename, the destination is an empty (truncated)
+    file although an old complete record existed and the new one is non-empty -/
+theorem rename_before_close_is_not_atomic :
+    let d := (applyAll { dest := some [9, 9] } (crashAfter 3 (atomicWriteRenameBeforeClose [[1, 2]]))).dest
+    d ≠ some [9, 9] ∧ d ≠ some (full [[1, 2]]) := by
+  decide
+
 /-- non-vacuity: an old record, three chunks, the serializer fails after two: the old record survives -/
 example : (applyAll { dest := some [9, 9] } (outputToFile [[1], [2], [3]] (.serializer 2))).dest = some [9, 9] := by decide
+example : (applyAll { dest := some [9, 9] } (atomicWrite [[1], [2], [3]] true .none)).dest = some [1, 2, 3] := by decide
 
 end OpenHTF.AtomicFile
